@@ -365,16 +365,17 @@ def check_all(case, props=None):
     # ---------------------------------------------------------------- ready set helper
     active = {i for i in range(n) if v.participates(i)} if v.ref is not None else None
 
-    def resolved(j, s):
-        """dependency j is known-finished to the scheduler strictly before s."""
+    def resolved(j, s, extra=()):
+        """dependency j is known-finished to the scheduler strictly before s (extra: nodes a FIRST_COMPLETED wait would
+        already have delivered - used only to judge an ALL_COMPLETED wait step by step)."""
         if j not in v.sel or j in v.pre:
             return True
         d = ids[j]
         if active is not None and j in active:
-            return d in v.delivered and v.delivered[d] < s
+            return (d in v.delivered and v.delivered[d] < s) or d in extra
         return d in v.pruned and v.pruned[d] < s
 
-    def ready_certain(s, with_inactive=False):
+    def ready_certain(s, with_inactive=False, extra=()):
         """with_inactive: also nodes the scheduler will prune (flag falsy) once it picks them; until then they are
         candidates for it like any other (and may make it drain for a sequential candidate)."""
         out = []
@@ -388,7 +389,7 @@ def check_all(case, props=None):
             else:
                 if not with_inactive or (x in v.pruned and v.pruned[x] <= s):
                     continue
-            if all(resolved(j, s) for j, _k in S.deps_of(spec["nodes"][i])):
+            if all(resolved(j, s, extra) for j, _k in S.deps_of(spec["nodes"][i])):
                 out.append(i)
         return out
 
@@ -445,17 +446,20 @@ def check_all(case, props=None):
                 steps += cs[:-1]
             for sidx, s2 in enumerate(steps):
                 fl = in_flight(s)
+                extra = ()
                 if sidx:
-                    # nodes whose function returned before s2 no longer occupy a slot
-                    fl = [x for x in fl if not (x in v.xexit and v.xexit[x] < s2)]
+                    # nodes whose function returned before s2 no longer occupy a slot, and a wait for the FIRST completion
+                    # would already have delivered them (their successors count as ready)
+                    extra = {x for x in fl if x in v.xexit and v.xexit[x] < s2 and x not in v.xfail}
+                    fl = [x for x in fl if x not in extra and not (x in v.xexit and v.xexit[x] < s2)]
                     if not fl:
                         continue
-                r = ready_certain(s)
+                r = ready_certain(s, extra=extra)
                 if fail_seen is not None and fail_seen < s:
                     continue
-                seq_running = any(v.attrs[v.idx[m]].get("is_sequential") for m in in_flight(s))
+                seq_running = any(v.attrs[v.idx[m]].get("is_sequential") for m in fl)
                 if len(fl) < v.mc and r and not seq_running:
-                    rall = ready_certain(s, with_inactive=True)
+                    rall = ready_certain(s, with_inactive=True, extra=extra)
                     best = max(v.cp[y] for y in rall)
                     if any(v.attrs[y].get("is_sequential") for y in rall if v.cp[y] == best):
                         continue
